@@ -209,7 +209,7 @@ class Builder:
 SAN_ENV = {
     'ASAN_OPTIONS': 'abort_on_error=1:detect_leaks=0:allocator_may_return_null=1:'
                     'handle_abort=0:print_summary=1:max_allocation_size_mb=3000',
-    'UBSAN_OPTIONS': 'print_stacktrace=1:halt_on_error=1',
+    'UBSAN_OPTIONS': 'print_stacktrace=1:halt_on_error=1:abort_on_error=1',
     'LC_ALL': 'C',
 }
 
